@@ -219,6 +219,10 @@ def run(ctx, widen=False):
             _fail(ctx, "float-display-contract", "Display of finite float %s:%x is %r, not [-]digits[.digits]" % (w, b, t), [fcases[k]], [impl[base + k]], "[-]d+[.d+]")
             continue
         floats.append((w, b, t))
+    # >>> w_wr (wave 5): the Display contract as the decidable predicate of proofs/WriterTextProofs.v, on every float text
+    from props import W5 as _W5
+    _W5.wfword_stream(ctx, [t for (_, _, t) in floats], _fail)
+    # <<< w_wr
     # numbers written after a key and read back with Scalar::to_*: exact for integers, 2 ulp for floats
     ncalls, nmeta = [], []
     for (w, b, t) in floats:
@@ -301,6 +305,8 @@ def run(ctx, widen=False):
 
     # ---- documents -> call lists (all start flavours, explicit/implicit '=', typed values, write_binary forwarding)
     ccases, cmeta, traces = [], [], {}
+    from props import W5          # w_wr (wave 5)
+    kser = {}                     # case index -> document encoding with the operator calls actually made
     for i in range(ctx.scale(4000, 25000) * mul):
         d = docgen.gen_doc(rng, rng.randrange(0, 5), rng.randrange(1, 7), params=False, ghosts=False, object_tails=False, exotic=(i % 3 != 0))
         d = typed_doc(rng, d, floats)
@@ -309,6 +315,10 @@ def run(ctx, widen=False):
         if calls == "-":
             continue
         ccases.append("writer.calls\t%s\t%s" % (rcfg(rng), calls)); cmeta.append(d); traces[len(ccases) - 1] = tr
+        try:
+            kser[len(ccases) - 1] = W5.ser_doc(d, called=True)
+        except Exception:
+            pass
     # every container flavour at depth: chains crossing the 16-byte indent cache
     for i in range(ctx.scale(250, 1500)):
         v = S("u", b"x")
@@ -320,6 +330,23 @@ def run(ctx, widen=False):
     for inner, n in ((Arr([]), 3), (Arr([Arr([])]), 4)):
         d = Doc([Field(S("u", b"data"), "=", Arr([inner, Arr([])]))])
         ccases.append("writer.calls\t32,2,r\t%s" % docgen.to_calls(d, rng, start_flavours=False)); cmeta.append(n)
+    # >>> w_wr (wave 5): the extracted classifier K (WriterMix.k15_class) of every call list's document
+    import vlib as _vl
+    _ks = sorted(kser)
+    _ko = _vl.run_model(["writer.kclass\t" + kser[k] for k in _ks]) if _ks else []
+    ctx.evaluations += len(_ks)
+    k15 = {}
+    for k, o in zip(_ks, _ko):
+        try:
+            k15[k] = int(dict(x.split("=") for x in o.split(" "))["k15"])
+            ctx.count("kclass15_%d" % k15[k])
+        except Exception:
+            ctx.count("kclass15_unclassified")
+
+    def kkey(k, other):
+        c = k15.get(k)
+        return "calls-mixed-nested-op" if c == 2 else ("calls-mixed-mode-lost" if c == 3 else other)
+    # <<< w_wr
     nt = lambda c, i: "7b" in i.split(" ")[0]
     impl, _ = ctx.correspond("calls_doc", ccases, nontrivial=nt)
     base = len(impl) - len(ccases)
@@ -332,9 +359,7 @@ def run(ctx, widen=False):
             got = o.split(" ")[1].split(",")
             for j, (g, ek) in enumerate(zip(got, traces[k])):
                 if bool(int(g.lstrip("E").split(".")[1]) & 1) != ek:
-                    from props.C14 import has_mixed_nested_op as _mno
-                    from props.C14 import has_mixed_container_then_more as _mcm
-                    _fail(ctx, "calls-mixed-nested-op" if _mno(cmeta[k], any_op=True) else ("calls-mixed-mode-lost" if _mcm(cmeta[k]) else "calls-expecting-key"), "after call %d (%s) of a well-formed list expecting_key() = %s, the calls made so far say %s" % (j, c.split("\t")[2].split(";")[j][:40], not ek, ek), [c], [o], str(ek))
+                    _fail(ctx, kkey(k, "calls-expecting-key"), "after call %d (%s) of a well-formed list expecting_key() = %s, the calls made so far say %s" % (j, c.split("\t")[2].split(";")[j][:40], not ek, ek), [c], [o], str(ek))
                     break
         last = o.split(" ")[1].split(",")[-1]
         if last != "0.1":
@@ -352,8 +377,8 @@ def run(ctx, widen=False):
             continue
         exp = "ok 0 " + docgen.flatten(d)
         if o != exp:
-            from props.C14 import has_glued_bang, has_mixed_nested_op, has_mixed_container_then_more
-            key = "calls-mixed-nested-op" if has_mixed_nested_op(d, any_op=True) else ("calls-mixed-mode-lost" if has_mixed_container_then_more(d) else ("calls-glued-bang" if has_glued_bang(d) else "calls-reparse"))
+            from props.C14 import has_glued_bang
+            key = kkey(k, "calls-glued-bang" if has_glued_bang(d) else "calls-reparse")
             _fail(ctx, key, "calls describe %s but the output parses to %s" % (exp[:300], o[:300]), [pc[k], ccases[k]], [o], exp)
         else:
             ctx.count("calls_reparse_ok")
